@@ -10,10 +10,11 @@ import common, corr
 from common import VERIF, WORK, COQ, log
 
 NAME = 'unmanaged'
-PROPS = ['C05', 'C12']
+PROPS = ['C05', 'C12', 'C10']   # C10: the unmanaged pool's single timeout (served together with the managed engine)
 HARNESS = os.path.join(VERIF, 'harness-unmanaged')
 TARGET = os.path.join(VERIF, '.cache', 'target-unmanaged')
 BIN = os.path.join(TARGET, 'debug', 'h1_unmanaged')
+BIN2 = os.path.join(TARGET, 'debug', 'h2_unmanaged')
 RULE_PREFIX = ('random thread-level label sequences on the real unmanaged pool (profiles core/full/close/mixed, '
                'plus the merges of close() with one other operation: all 8415 in the thorough tier, a sample in quick; '
                'pools built by new / from_config / From<iterator>, SplitMix64 from VERIF_SEED) plus corpus, each '
@@ -27,9 +28,10 @@ TRUSTED_EXTRA = [
     "an assigned waiter whose permit returns to the counter; add_permits on a closed semaphore still counts)",
     "unmanaged engine: the lock region of PoolInner::clear (size and available are reduced and the queue emptied) "
     "is one atomic step; a status() read racing into the middle of that region is not modelled",
-    "unmanaged engine: the arm of timeout_get that uses a runtime timer is outside this engine (pools are built "
-    "without a runtime: a finite timeout yields NoRuntimeSpecified); Pool::default and the Weak upgrade failing "
-    "(pool dropped while objects are out) are not exercised",
+    "unmanaged engine: the arm of timeout_get that uses a runtime timer is exercised by h2_unmanaged on a paused "
+    "tokio clock at task level (every task runs until it parks; Fire = the clock is advanced to the strictly "
+    "earliest deadline) and compared with Unmanaged/Macro.v; async-std timers are not exercised; Pool::default "
+    "and the Weak upgrade failing (pool dropped while objects are out) are not exercised",
 ]
 
 
@@ -50,7 +52,7 @@ def parse_obs(o):
     return d
 
 
-LNAMES = {0: 'Start', 1: 'Step', 3: 'Cancel', 4: 'Mark'}
+LNAMES = {0: 'Start', 1: 'Step', 3: 'Cancel', 4: 'Mark', 5: 'Fire'}
 OPS = {0: 'Get', 1: 'Add', 2: 'Drop', 3: 'Take', 4: 'Close', 5: 'Status'}
 GMODES = {0: 'get', 1: 'try_get', 2: 'timeout_get(None)', 3: 'timeout_get(0)', 4: 'timeout_get(50ms)'}
 RMODES = {0: 'remove', 1: 'try_remove', 2: 'timeout_remove(None)', 3: 'timeout_remove(0)', 4: 'timeout_remove(50ms)'}
@@ -123,6 +125,21 @@ def cargo_build():
     return ('error' not in out.lower().split('warning')[0] and rc == 0 and 'could not compile' not in out), out
 
 
+def h2_batch(tier):
+    return (4000, 40) if tier == 'thorough' else (220, 36)
+
+
+def gen_traces_h2(seed, n, maxlabels):
+    p = subprocess.run([BIN2, 'gen', str(seed), str(n), str(maxlabels)],
+                       stdout=subprocess.PIPE, stderr=subprocess.PIPE, text=True, timeout=3000)
+    traces = [json.loads(l) for l in p.stdout.splitlines() if l.strip()]
+    for t in traces:
+        t['profile'] = 'h2'
+    if p.returncode != 0 or len(traces) != n:
+        raise RuntimeError('h2_unmanaged failed (rc %d, %d/%d traces): %s' % (p.returncode, len(traces), n, p.stderr[-500:]))
+    return traces
+
+
 def gen_traces(seed, profile, n, maxlabels):
     p = subprocess.run([BIN, 'gen', str(seed), str(n), profile, str(maxlabels)],
                        stdout=subprocess.PIPE, stderr=subprocess.PIPE, text=True, timeout=3000)
@@ -134,17 +151,32 @@ def gen_traces(seed, profile, n, maxlabels):
     return traces
 
 
+def is_h2(it):
+    return bool(it.get('h2')) or it.get('profile') == 'h2'
+
+
 def replay_traces(items):
+    """replays thread-level items on h1_unmanaged and task-level (h2) items on h2_unmanaged"""
     os.makedirs(WORK, exist_ok=True)
-    path = os.path.join(WORK, 'ureplay_in_%d.jsonl' % os.getpid())
-    with open(path, 'w') as f:
-        for it in items:
-            f.write(json.dumps({'cfg': it['cfg'], 'labels': it['labels']}) + '\n')
-    p = subprocess.run([BIN, 'replay', path], stdout=subprocess.PIPE, stderr=subprocess.PIPE, text=True, timeout=3000)
-    os.remove(path)
-    traces = [json.loads(l) for l in p.stdout.splitlines() if l.strip()]
-    if p.returncode != 0 or len(traces) != len(items):
-        raise RuntimeError('harness replay failed: %s' % p.stderr[-500:])
+    traces = [None] * len(items)
+    for h2 in (False, True):
+        idx = [i for i, it in enumerate(items) if is_h2(it) == h2]
+        if not idx:
+            continue
+        path = os.path.join(WORK, 'ureplay_in_%d.jsonl' % os.getpid())
+        with open(path, 'w') as f:
+            for i in idx:
+                f.write(json.dumps({'cfg': items[i]['cfg'], 'labels': items[i]['labels']}) + '\n')
+        p = subprocess.run([BIN2 if h2 else BIN, 'replay', path], stdout=subprocess.PIPE, stderr=subprocess.PIPE,
+                           text=True, timeout=3000)
+        os.remove(path)
+        got = [json.loads(l) for l in p.stdout.splitlines() if l.strip()]
+        if p.returncode != 0 or len(got) != len(idx):
+            raise RuntimeError('harness replay failed: %s' % p.stderr[-500:])
+        for i, g in zip(idx, got):
+            if h2:
+                g['h2'] = 1
+            traces[i] = g
     for t, it in zip(traces, items):
         t['profile'] = it.get('profile', 'corpus')
         t['name'] = it.get('name', '')
@@ -184,8 +216,17 @@ def ensure_model_built():
 
 
 def model_obs(traces, tag='u'):
-    cases = [(t['cfg'], t['labels']) for t in traces]
-    return corr.run_model(tag, 'Unmanaged.Decode', 'run_case_z', cases, shard=25)
+    """thread-level traces through run_case_z, task-level (h2) traces through run_case_macro_z"""
+    out = [None] * len(traces)
+    for h2, module, runner in ((False, 'Unmanaged.Decode', 'run_case_z'), (True, 'Unmanaged.Macro', 'run_case_macro_z')):
+        idx = [i for i, t in enumerate(traces) if is_h2(t) == h2]
+        if not idx:
+            continue
+        res = corr.run_model(tag + ('m' if h2 else ''), module, runner,
+                             [(traces[i]['cfg'], traces[i]['labels']) for i in idx], shard=25)
+        for i, r in zip(idx, res):
+            out[i] = r
+    return out
 
 
 # ------------------------------------------------------------------ projections
@@ -200,6 +241,8 @@ PROJ = {
     # closing: flags, what the pool still holds, results, destructions and hand-backs
     'C12': lambda d: (d['closed'], d['sclosed'], d['queue'], sorted(d['loose']), d['tasks'],
                       evs(d, {5, 6, 7, 8, 9, 12})),
+    # timeouts: what every call answers, whether it parks, and that the books are restored
+    'C10': lambda d: (d['permits'], d['spermits'], d['size'], d['avail'], d['closed'], d['tasks'], evs(d, {6, 8, 10})),
 }
 
 PARKED = (3, 13)
@@ -219,6 +262,13 @@ def monitor_trace(t, P):
             fails[p] = (i, msg)
 
     ctor, max0, ptmo = t['cfg'][0], t['cfg'][1], (t['cfg'][2] if t['cfg'][0] == 1 else 0)
+    h2 = is_h2(t)                                   # task-level trace: an operation completes within its label
+    has_rt = ctor == 1 and len(t['cfg']) > 3 and t['cfg'][3] != 0
+
+    def eff_tmo(op):
+        """effective timeout of a get-family call: 0 none, 1 zero, 2 finite"""
+        m = op[3]
+        return {0: ptmo, 1: 1, 2: 0, 3: 1, 4: 2}.get(m, 0)
     all_oids = set(range(max0)) if ctor == 2 else set()
     destroyed = set()
     excused = set()          # objects whose add() future the caller dropped
@@ -310,7 +360,8 @@ def monitor_trace(t, P):
                     fail('C05', i, 'refused add did not hand object %d back' % op[3])
         # ---- status() exact at rest: both loads happen while nothing else is in progress
         for e in d['events']:
-            if e[0] == 10 and l[0] == 1 and i >= 1 and t['labels'][i - 1][:2] == [1, l[1]] and at_rest(tasks, skip=l[1]):
+            if e[0] == 10 and ((l[0] == 1 and i >= 1 and t['labels'][i - 1][:2] == [1, l[1]]) or (h2 and l[0] == 0)) \
+                    and at_rest(tasks, skip=l[1]):
                 waiting = sum(1 for c in tasks if c == 3)
                 exp = (d['max'], len(d['queue']) + len(d['held']), len(d['queue']), waiting)
                 if tuple(e[1:5]) != exp:
@@ -323,16 +374,49 @@ def monitor_trace(t, P):
                 allowed = {0: (100, 101, 102, 103, 109), 1: (100, 101, 102, 109)}.get(ops[j][2], (110,))
                 if c not in allowed:
                     fail('C12', i, 'task %d (%s) ended with code %d' % (j, fmt_label(ops[j]), c))
-        if l[0] == 1 and ops.get(l[1], [0, 0, -1])[2] == 4 and tasks[l[1]] == 110 and close_done is None:
+        if (l[0] == 1 or h2) and ops.get(l[1], [0, 0, -1])[2] == 4 and l[1] < len(tasks) and tasks[l[1]] == 110 \
+                and close_done is None:
             close_done = i
             parked_at_close = {j for j, c in enumerate(tasks) if c in (3, 4, 13, 14)}
-        if l[0] in (1, 3) and l[1] in ops and tasks[l[1]] >= 100 and (prev is None or l[1] >= len(prev['tasks']) or prev['tasks'][l[1]] < 100):
+        # ---- C10: the single timeout
+        for j, c in enumerate(tasks):
+            if j not in ops or ops[j][2] != 0:
+                continue
+            e = eff_tmo(ops[j])
+            newly = c >= 100 and (prev is None or j >= len(prev['tasks']) or prev['tasks'][j] < 100)
+            if e == 1 and c in (3, 4):
+                fail('C10', i, '%s with a zero timeout is parked on the semaphore' % fmt_label(ops[j]))
+            if e == 2 and not has_rt:
+                if c in (3, 4, 5, 6):
+                    fail('C10', i, '%s without a runtime went for the semaphore instead of answering NoRuntimeSpecified' % fmt_label(ops[j]))
+                if newly and c not in (103, 109):
+                    fail('C10', i, '%s without a runtime ended with %s, expected NoRuntimeSpecified' % (fmt_label(ops[j]), PCN.get(c, c)))
+            if newly and c == 103 and not (e == 2 and not has_rt):
+                fail('C10', i, '%s answered NoRuntimeSpecified (runtime %s)' % (fmt_label(ops[j]), 'present' if has_rt else 'absent'))
+            if newly and c == 101:
+                if e == 0:
+                    fail('C10', i, '%s has no timeout and answered Timeout' % fmt_label(ops[j]))
+                if e == 2 and not (l[0] == 5 and l[1] == j):
+                    fail('C10', i, '%s answered Timeout before its deadline' % fmt_label(ops[j]))
+                if h2 and e == 1 and prev is not None and prev['permits'] > 0 and not prev['closed']:
+                    fail('C10', i, '%s answered Timeout while %d objects were available' % (fmt_label(ops[j]), prev['permits']))
+        if l[0] == 5 and l[1] < len(tasks):
+            # the deadline passed while the call was still waiting (task level: nothing else is in progress)
+            want = 102 if d['closed'] else 101
+            if tasks[l[1]] != want:
+                fail('C10', i, 'deadline of %s passed: the call is %s, expected %s' % (
+                    fmt_label(ops.get(l[1], l)), PCN.get(tasks[l[1]], tasks[l[1]]), PCN.get(want)))
+            if prev is not None and not d['closed'] and (d['permits'], d['size'], d['avail'] - 1, d['queue']) != \
+                    (prev['permits'], prev['size'], prev['avail'], prev['queue']):
+                fail('C10', i, 'a timed-out get changed the pool: permits/size/available/queue %s -> %s' % (
+                    (prev['permits'], prev['size'], prev['avail'], prev['queue']), (d['permits'], d['size'], d['avail'], d['queue'])))
+        if (l[0] in (1, 3) or (h2 and l[0] in (0, 5))) and l[1] in ops and tasks[l[1]] >= 100 and (prev is None or l[1] >= len(prev['tasks']) or prev['tasks'][l[1]] < 100):
             op, code = ops[l[1]], tasks[l[1]]
             if code == 102 and not d['closed']:
                 fail('C12', i, '%s answered Closed on an open pool' % fmt_label(op))
             if close_done is not None and op[2] in (0, 1) and code != 109 and \
                     (l[1] in started_after_close or l[1] in parked_at_close):
-                norun = op[2] == 0 and (op[3] == 4 or (op[3] == 0 and ptmo == 2))
+                norun = op[2] == 0 and (op[3] == 4 or (op[3] == 0 and ptmo == 2)) and not has_rt
                 want = 103 if norun else 102
                 if code != want:
                     when = 'started after' if l[1] in started_after_close else 'parked when'
@@ -385,10 +469,16 @@ def nontrivial(t, P):
     for l, d in zip(ls, P):
         if l[0] == 0 and l[2] == 4 and any(1 <= c < 100 for j, c in enumerate(d['tasks']) if j != l[1]):
             close_race = True
-    return dict(cancel=cancel, take=take, refused=refused, parked=parked, close_race=close_race)
+    ptmo = t['cfg'][2] if t['cfg'][0] == 1 else 0
+    timeout = any(l[0] == 0 and l[2] == 0 and (l[3] in (1, 3, 4) or (l[3] == 0 and ptmo != 0)) for l in ls)
+    fired = any(l[0] == 5 for l in ls)
+    return dict(cancel=cancel, take=take, refused=refused, parked=parked, close_race=close_race, timeout=timeout,
+                fired=fired)
 
 
 RULES = {
+    'C10': ('uses a zero or finite timeout (per call or pool level) on the unmanaged pool',
+            lambda n: n.get('timeout', False)),
     'C05': ('contains a cancellation, a take/remove, a refused add or a caller parked on a full / empty pool',
             lambda n: n['cancel'] or n['take'] or n['refused'] or n['parked']),
     'C12': ('contains a close() issued while another operation is in progress or parked',
@@ -398,7 +488,7 @@ RULES = {
 
 # ------------------------------------------------------------------ the engine run
 def engine_key(seed, tier):
-    h = [common.file_hash(BIN), common.vo_hash('Unmanaged'), common.vo_hash('Common')]
+    h = [common.file_hash(BIN), common.file_hash(BIN2), common.vo_hash('Unmanaged'), common.vo_hash('Common')]
     for p in [os.path.join(VERIF, 'lib', n) for n in ('unmanaged.py', 'corr.py', 'common.py')] + \
             sorted(glob.glob(os.path.join(VERIF, 'corpus', 'unmanaged', '*.json'))) + \
             sorted(glob.glob(os.path.join(VERIF, 'findings', 'unmanaged_corpus*.replay'))):
@@ -474,6 +564,8 @@ def run_engine(seed, tier):
     ncorpus = len(traces)
     for bi, (profile, n, ml) in enumerate(batches(tier)):
         traces += gen_traces(seed * 1000 + bi, profile, n, ml)
+    n2, ml2 = h2_batch(tier)
+    traces += gen_traces_h2(seed * 1000 + 77, n2, ml2)
     # identical label sequences (frequent among the race merges) are evaluated once
     seen, uniq = set(), []
     for t in traces:
@@ -492,7 +584,8 @@ def run_engine(seed, tier):
     for p in PROPS:
         for m in res['props'][p]['mismatches'][:3] + res['props'][p]['monitor_fails'][:3]:
             keep.add(m['trace'])
-    res['kept'] = {str(i): dict(cfg=traces[i]['cfg'], labels=traces[i]['labels'], profile=traces[i]['profile']) for i in keep}
+    res['kept'] = {str(i): dict(cfg=traces[i]['cfg'], labels=traces[i]['labels'], profile=traces[i]['profile'],
+                                h2=int(is_h2(traces[i]))) for i in keep}
     res['samples'] = [dict(cfg=t['cfg'], profile=t['profile'], labels=[fmt_label(l) for l in t['labels'][:40]])
                       for t in traces[ncorpus:ncorpus + 2]]
     os.makedirs(os.path.dirname(cpath), exist_ok=True)
@@ -510,8 +603,7 @@ def replay(payload):
     t = traces[0]
     for i, (l, o) in enumerate(zip(t['labels'], t['obs'])):
         m = mo[0][i] if i < len(mo[0]) else None
-        same = m is not None and PROJ['C05'](parse_obs(m)) == PROJ['C05'](parse_obs(o)) \
-            and PROJ['C12'](parse_obs(m)) == PROJ['C12'](parse_obs(o))
+        same = m is not None and all(PROJ[p](parse_obs(m)) == PROJ[p](parse_obs(o)) for p in PROPS)
         log('%s %3d %-34s impl  %s' % ('  ' if same else '!!', i, fmt_label(l), fmt_obs(o)))
         if not same:
             log('   %3s %-34s model %s' % ('', '', fmt_obs(m) if m else 'label not enabled'))
